@@ -284,6 +284,40 @@ theorem validate_idempotent_choice_F188_fails :
   revert this
   decide
 
+/-- **auto-deletion of leftover case defaults** (`lyd_validate_autodel_case_dflt` inside the node loop of `lyd_validate_new`, every
+schema and both variants): the loop leaves the explicit siblings as they are (same schema ids, same order — every deletion of the
+loop, superseded defaults included, hits default-flagged nodes only); every node it hands back was there (at most it lost
+`LYD_NEW`) and is not new any more; and **no default-flagged node that survives is the leftover of a dead case**
+(`caseDfltVictim`, judged on the result) — so every leftover is removed, whatever was deleted around it on the way. -/
+theorem autodel_case_exact (X : SchemaX) (o : VOpts) (cx : Cx) (sibs : List DNode) :
+    let R := (newLoop X o cx (sibs.length + 1) [] sibs none).1
+    (R.filter (fun x => !x.flags.dflt)).map (·.sid) = (sibs.filter (fun x => !x.flags.dflt)).map (·.sid) ∧
+    (∀ x ∈ R, ∃ y ∈ sibs, x = normNew y) ∧ (∀ x ∈ R, x.flags.new = false) ∧
+    (∀ x ∈ R, x.flags.dflt = true → caseDfltVictim X R x = false) := by
+  obtain ⟨h1, h2⟩ := newLoop_first X o cx (sibs.length + 1) sibs [] none (by omega)
+  have h3 := newLoop_out X o cx (sibs.length + 1) sibs [] none (by omega)
+  simp only [List.nil_append] at h1 h2
+  refine ⟨h1, ?_, ?_, ?_⟩
+  · intro x hx
+    rcases h3 x hx with h | h
+    · cases h
+    · exact h
+  · intro x hx
+    rcases h2 x hx with h | h
+    · cases h
+    · exact h.1
+  · intro x hx hd
+    rcases h2 x hx with h | h
+    · cases h
+    · rw [victim_congr X _ _ x h1]; exact h.2 hd
+
+/-- non-vacuity (schema `Sc`): the defaults `u` (nested default case `d`) and `da` of case `a` go when nothing explicit of `a` is left,
+and stay next to an explicit `x` -/
+example :
+    ((newLoop Xc {} {} 3 [] [.term 5 { dflt := true } [] [57], .term 8 { dflt := true } [] [57]] none).1.map (·.sid),
+     (newLoop Xc {} {} 4 [] [.term 2 {} [] [49], .term 5 { dflt := true } [] [57], .term 8 { dflt := true } [] [57]] none).1.map (·.sid))
+      = ([], [2, 5, 8]) := by decide
+
 /-! ## `lyd_is_default` against RFC 6243 / RFC 7950 §7.7.2 -/
 
 /-- RFC view: a leaf instance is default data iff its value is the schema default; a leaf-list is at its default iff the list of
@@ -463,9 +497,10 @@ example :
 -- defective variant F180, `implicit_exact_choice_F180_fails`.)
 -- OPEN: `implicit_exact` for the WHOLE tree against `rfcComplete` (SpecDefaults.lean: recursion into containers and list entries,
 -- sibling order of the created nodes); law `implicit` of tools/checks/c07.py.
--- OPEN: `autodel_exact` through choices as one statement about `lyd_validate_new` (which default nodes a whole call removes):
--- proved are the step (`autodel_exact`) and, inside `validate_idempotent_choice`, that exactly the explicit siblings are kept
--- and no surviving default node is a leftover of a dead case (`newLoop_first`, `validateNew_first`).
+-- (`autodel_exact` through choices: the step `autodel_exact`, and for a whole node loop `autodel_case_exact` — explicit siblings
+-- kept, no leftover of a dead case survives.)
+-- OPEN: which default nodes a whole `lyd_validate_new` call removes, as an equation (superseded defaults and case leftovers
+-- interleave through `last_dflt_schema`).
 -/
 
 end LyModel.Props.C07
